@@ -102,6 +102,12 @@ func verifDump(p *p2cPicker) [][]uint64 {
 func TestVerifDriver(t *testing.T) {
 	defer timex.VerifClockOff()
 	verifdrv.Run(t, func(raw json.RawMessage) any {
+		var kind struct {
+			Multi bool `json:"multi"`
+		}
+		if json.Unmarshal(raw, &kind) == nil && kind.Multi {
+			return verifMulti(raw)
+		}
 		var c verifCase
 		if err := json.Unmarshal(raw, &c); err != nil {
 			return map[string]any{"error": err.Error()}
